@@ -68,6 +68,29 @@ claim("C13", "proof",
       "is the unchecked meta-lemma L-frame-serial; histories and threads are explored in the bounded layer.",
       "contract-based verification: frame (modifies-nothing) obligations decided on the AST + one z3-discharged wiring VC; "
       "bounded history/thread exploration", "DESIGN.md §3 C13")
-for _p in ["C01", "C02", "C03", "C04", "C06", "C07", "C08", "C09", "C10", "C12",
+claim("C07", "proof",
+      "split_frontmatter is verified over the line model ('\\n' after CRLF->LF is the only line end; pieces re-join to the "
+      "text): two loop invariants, the three exhaustive cases (no block => ('', text); closed => the contiguous run up to the "
+      "FIRST closing '---' re-joined verbatim and the rest as body; unclosed => the whole text unchanged), all subscripts in "
+      "range, both loops with variants; fill_markdown's pipeline clause proves the block is re-attached in front of "
+      "render(parse(prep(strip(body)))) and that a frontmatter-only document is returned unchanged up to a final newline. "
+      "Two genuine defects found by these contracts were repaired (fix: commits).",
+      "str.split/join/replace/strip by assumed library contracts (split pieces contain no separator and re-join to the text); "
+      "Marko parse/render and tag pre-processing uninterpreted; body independence format(fm+body)=fm+format(body) is derived "
+      "from the two contracts for bodies that are not themselves frontmatter and explored in the bounded layer.",
+      "contract-based deductive verification: AST->VC generation (loop invariants over the line model) + z3; bounded "
+      "frontmatter x body x options exploration", "DESIGN.md §3 C07")
+claim("C10", "proof",
+      "Tree rewrite contract on the real _unbold_heading_transformer over a heap model of Marko element records (children as "
+      "heap arrays, classes from the live hierarchy): sole StrongEmphasis child unwrapped, Emphasis(StrongEmphasis) unwrapped "
+      "inside, and a frame clause that every other element keeps its children; render_list's tightness decision per mode, its "
+      "restoration on exit (nested lists cannot leak their mode) and one render per item in order; _can_be_tight <=> every "
+      "item holds a single block (loop invariant); render_list_item's separator emission; ST obligations that the mode is read "
+      "and written nowhere else and that cleanups consist of exactly this rewrite. One defect (setext headings) was repaired.",
+      "contract R of render() for child elements assumed (preserves continuation prefix, mode and tightness); Marko element "
+      "field meanings assumed; 'nothing but blank lines between items changes' is a 2-run relation explored only in the bounded layer.",
+      "contract-based deductive verification: AST->VC generation over a heap model + z3; static read/write sets; bounded "
+      "option-on/off differential", "DESIGN.md §3 C10")
+for _p in ["C01", "C02", "C03", "C04", "C06", "C08", "C09", "C12",
            "C17", "C18"]:
     NOT_APPLICABLE[_p] = "check not built yet in this round (planned in DESIGN.md §3); nothing is claimed"
